@@ -40,6 +40,7 @@ def run(ctx):
     rule_get_note(ctx)
     rule_fingering(ctx)
     rule_chord_fingering(ctx)
+    rule_best_fingering_notes(ctx)
     rule_search(ctx)
     rule_courses(ctx)
     rule_layout(ctx)
@@ -290,6 +291,44 @@ def rule_chord_fingering(ctx):
                     break
         ctx.check(ok, R, "find_chord_fingering[%s]" % label, f.where(), "find_chord_fingering(<%s>, max_distance=%d, maxfret=%d, max_fingers=%d)" % (label, maxd, maxfret, maxfing), why,
                   fingerings=len(paths[0].value[0]) if ok else None)
+
+
+def rule_best_fingering_notes(ctx):
+    """find_chord_fingering(..., return_best_as_NoteContainer=True), run on the real tuning / Note code: every note of
+    the answer sits where it says it sits -- its pitch is the open string raised by its fret -- and is spelled as a note
+    of the chord (also B#, Cb and the like, whose octave number changes with the spelling)."""
+    R = "R-C20-5"
+    repo = ctx.repo
+    ci = repo.mod(TU).cls("StringTuning")
+    f = repo.find_method(ci, "find_chord_fingering")
+    tunings_ = {"guitar": ["E-2", "A-2", "D-3", "G-3", "B-3", "E-4"], "ukulele": ["G-4", "C-4", "E-4", "A-4"]}
+    cases = [("guitar", ["A", "C", "E"]), ("guitar", ["Db", "F", "Ab", "Cb"]), ("guitar", ["C#", "E#", "G#", "B#"]), ("ukulele", ["Gb", "Bb", "Db", "Fb"]),
+             ("ukulele", ["G#", "B#", "D#"])]
+    for tname, chord in cases:
+        opens = [nd.pitch_number(x.split("-")[0], int(x.split("-")[1])) for x in tunings_[tname]]
+
+        def go(it, tname=tname, chord=chord):
+            t = it.call(AClass(ci), [tname, "standard", list(tunings_[tname])], {}, None)
+            r = it.call_method(t, "find_chord_fingering", [list(chord)], {"maxfret": 5, "return_best_as_NoteContainer": True}, None)
+            return [(n.attrs["name"], n.attrs["octave"], n.attrs.get("string"), n.attrs.get("fret")) for n in r.attrs["notes"]]
+        try:
+            p = explore(lambda ch: Interp(repo, ch, max_depth=80, max_iter=200000), go)
+        except CannotDecide as e:
+            raise AnalysisError("find_chord_fingering(%s, best as notes) on %s: %s" % (chord, tname, e))
+        ok, why = len(p) == 1 and p[0].kind == "return" and bool(p[0].value), "outcome %s" % [(x.kind, short(repr(x.value), 80)) for x in p][:2]
+        if ok:
+            for name, octave, string, fret in p[0].value:
+                if not (isinstance(string, int) and isinstance(fret, int) and 0 <= string < len(opens)):
+                    ok, why = False, "the note %s-%s carries no position (string %r, fret %r)" % (name, octave, string, fret)
+                    break
+                pitch = nd.pitch_number(name, octave)
+                if pitch != opens[string] + fret:
+                    ok, why = False, "the note %s-%s (pitch %d) is said to be on string %d fret %d, which sounds pitch %d" % (name, octave, pitch, string, fret, opens[string] + fret)
+                    break
+                if nd.pitch_of_concrete(name) % 12 not in {nd.pitch_of_concrete(c) % 12 for c in chord}:
+                    ok, why = False, "the note %s-%s is no note of the chord %s" % (name, octave, chord)
+                    break
+        ctx.check(ok, R, "best-fingering-notes[%s,%s]" % (tname, "".join(chord)), f.where(), "%s.find_chord_fingering(%s, return_best_as_NoteContainer=True)" % (tname, chord), why)
 
 
 def rule_search(ctx):
@@ -552,13 +591,14 @@ def rule_tab_bar(ctx):
         return [list(fingerings[n.name])]
     summ[key] = ff
     nci, barci = repo.mod(NC).cls("NoteContainer"), repo.mod(BAR).cls("Bar")
-    for width in (40, 61):
-        def mk():
+    # (4/4, and the same entries in free time: the unbounded (0, 0) meter has no beats to mark)
+    for width, meter in ((40, (4, 4)), (61, (4, 4)), (40, (0, 0))):
+        def mk(meter=meter):
             entries = []
             for label, val in (("e0", 4), ("e1", 8), (None, 8), ("e3", 2)):
                 cont = None if label is None else AObj(nci, {"notes": []}, name=label)
                 entries.append([0.0, val, cont])
-            return [AObj(barci, {"bar": entries, "meter": (4, 4)}, name="bar"), width, tuning_obj(repo, strings), False]
+            return [AObj(barci, {"bar": entries, "meter": meter, "length": 1.0 if meter[1] else 0.0}, name="bar"), width, tuning_obj(repo, strings), False]
         try:
             paths = run_method(repo, f, mk, summaries=summ, max_depth=30)
         except CannotDecide as e:
@@ -595,4 +635,4 @@ def rule_tab_bar(ctx):
                     if got != want:
                         ok, why = False, "reading the fret numbers column by column gives %s, the entries are %s" % (got, want)
 
-        ctx.check(ok, R, "from_Bar[width=%d]" % width, f.where(), "tablature.from_Bar(<4 entries>, %d)" % width, why)
+        ctx.check(ok, R, "from_Bar[width=%d%s]" % (width, "" if meter[1] else ", free time"), f.where(), "tablature.from_Bar(<4 entries in %d/%d>, %d)" % (meter[0], meter[1], width), why)
